@@ -108,23 +108,20 @@ theorem encode_then_decode (hp : Par fs decay T) (value : Int) :
 def eprobFs (lm intra band : Nat) : Nat := (((eProbModel.getD lm []).getD intra []).getD (2 * band) 0) * 128
 def eprobDecay (lm intra band : Nat) : Nat := (((eProbModel.getD lm []).getD intra []).getD (2 * band + 1) 0) * 64
 
-/-- Shape of `e_prob_model[4][2][42]` and, for every entry: `LaplaceOk`, and the documented precondition of
-    `ec_laplace_get_freq1` ("decay is positive and at most 11456"; `fs ≤ 32768 − 2·LAPLACE_NMIN`). -/
+/-- Shape of `e_prob_model[4][2][42]` and, for every entry: `LaplaceOk`, and `decay < 2^16` (with `LaplaceOk` this
+    keeps every `unsigned` product `fs*decay` of laplace.c below 2^32, so the unbounded model arithmetic is the C
+    arithmetic; the one place that relies on unsigned conversion, `ec_laplace_get_freq1`, is modelled with its wrap). -/
 def eprobCheck : Bool :=
   decide (eProbModel.length = 4) && eProbModel.all (fun a => decide (a.length = 2) && a.all (fun r => decide (r.length = 42))) &&
   (List.range 4).all fun lm => (List.range 2).all fun intra => (List.range 21).all fun band =>
-    LaplaceOk (eprobFs lm intra band) (eprobDecay lm intra band) &&
-    decide (0 < eprobDecay lm intra band) && decide (eprobDecay lm intra band ≤ 11456) &&
-    decide (eprobFs lm intra band ≤ 32736)
+    LaplaceOk (eprobFs lm intra band) (eprobDecay lm intra band) && decide (eprobDecay lm intra band < 65536)
 
 theorem eprobCheck_true : eprobCheck = true := by decide +kernel
 
 theorem eprob_ok {lm intra band : Nat} (h1 : lm < 4) (h2 : intra < 2) (h3 : band < 21) :
-    LaplaceOk (eprobFs lm intra band) (eprobDecay lm intra band) = true ∧
-    0 < eprobDecay lm intra band ∧ eprobDecay lm intra band ≤ 11456 ∧ eprobFs lm intra band ≤ 32736 := by
+    LaplaceOk (eprobFs lm intra band) (eprobDecay lm intra band) = true ∧ eprobDecay lm intra band < 65536 := by
   have h := eprobCheck_true
   simp only [eprobCheck, Bool.and_eq_true, List.all_eq_true, List.mem_range, decide_eq_true_eq] at h
-  obtain ⟨⟨⟨a, b⟩, c⟩, d⟩ := h.2 lm h1 intra h2 band h3
-  exact ⟨a, b, c, d⟩
+  exact h.2 lm h1 intra h2 band h3
 
 end OpusProofs.Laplace
